@@ -517,7 +517,7 @@ func TestVerif_C35(t *testing.T) {
 	defer admin.Close()
 	admin.MustExec(t, "CREATE DATABASE home")
 	admin.MustExec(t, "USE home")
-	vh.Check(t, "sql", 45, 40, func(rt *rapid.T) {
+	vh.Check(t, "sql", 40, 40, func(rt *rapid.T) {
 		c35Run(rt, srv, admin, dir, rec)
 	})
 }
